@@ -8,6 +8,7 @@ import Mav.Spec.Events
 import Mav.Spec.Fanout
 import Mav.Spec.Close
 import Mav.Spec.Lifecycle
+import Mav.Spec.AutoMsgs
 /- mavdrv: one operation per line on stdin, model (and spec) answer per line on stdout. -/
 open Mav Drv
 
@@ -189,6 +190,39 @@ def specInitLine (st : Msg.GoStruct) : String :=
 def H := Sha256.hash
 
 
+
+/-! C16 -/
+def autoCfg (ds : DState) (dn : String) (version : Nat) (disable enable : Bool) (systype ap freq : Nat) : Auto.Cfg :=
+  let d := Auto.defaults systype freq
+  { heartbeatDisable := disable, streamRequestEnable := enable, hasDialect := dn != "-", version := version,
+    crcOf := fun id => match ds.get dn with
+      | some l => (l.find? (·.id == UInt32.ofNat id)).map (fun m => m.rw.crcExtra.toNat)
+      | none => none,
+    systemType := d.1, autopilotType := ap, frequency := d.2 }
+
+def encHb (h : Auto.Heartbeat) : String :=
+  s!"H({h.type},{h.autopilot},{h.baseMode},{h.customMode},{h.systemStatus},{h.mavlinkVersion})from(9,1):n-ok:spacing-ok"
+
+def decArrivals (ch : Nat) (h : String) : Option (List Auto.Arrival) :=
+  if h == "-" then some [] else
+  (((h.splitOn ",").foldlM (fun (acc : Nat × List Auto.Arrival) tok =>
+    if tok == "P31" then some (acc.1 + 31000000000, acc.2) else
+    match tok.splitOn "." with
+    | [sy, co, kind] => do
+      let s ← sy.toNat?
+      let c ← co.toNat?
+      let (mid, ap) ← (if kind == "A" then some (0, 3) else if kind == "O" then some (1, 0)
+        else if kind.startsWith "G" then (kind.drop 1).toNat?.map (fun n => (0, n)) else none)
+      pure (acc.1 + 1000, acc.2 ++ [{ t := acc.1 + 1000, key := ⟨ch, s, c⟩, msgId := mid, autopilot := ap }])
+    | _ => none) (0, [])).map (·.2))
+
+def encOuts (outs : List Auto.Out) : String :=
+  let rs := outs.filterMap (fun o => match o with
+    | .req r => some s!"R({r.targetSystem},{r.targetComponent},{r.reqStreamId},{r.reqMessageRate},{r.startStop})" | _ => none)
+  let es := outs.filterMap (fun o => match o with | .requested k => some s!"S({k.sys},{k.comp})" | _ => none)
+  let d (l : List String) := if l.isEmpty then "-" else "".intercalate l
+  d rs ++ "|" ++ d es
+
 /-! C14 rendering -/
 def encEnd : Prov.End → String
   | .err k => "tr" ++ toString k
@@ -365,6 +399,29 @@ def step (ds : DState) (line : String) : DState × String :=
           else "violation: observed [" ++ pre ++ " | " ++ post ++ "] expected " ++ "~".intercalate (evs oracle) ++ "~C(nil)"
         verdict false ++ "\t" ++ verdict true
       | _, _ => "bad-op")
+  | ["hbcheck", dis, dn, ver, _period, systype, ap, k] =>
+    (ds, match ver.toNat?, systype.toNat?, ap.toNat?, k.toNat? with
+      | some v, some st, some a, some kk =>
+        let cfg := autoCfg ds dn v (dis == "1") false st a 0
+        let one (o : Option Auto.Heartbeat) := match o with | some h => encHb h | none => "none"
+        let m := one (if Auto.hbEnabled cfg then some (Auto.heartbeat cfg) else none)
+        let sp := one (Spec.Auto.hbExpected cfg)
+        ";".intercalate (List.replicate kk m) ++ "\t" ++ ";".intercalate (List.replicate kk sp)
+      | _, _, _, _ => "bad-op")
+  | ["srcheck", en, dn, freq, hist, _transport] =>
+    (ds, match freq.toNat? with
+      | some f =>
+        let cfg := autoCfg ds dn 0 true (en == "1") 0 0 f
+        let hs := hist.splitOn ";"
+        match ((List.range hs.length).zip hs).mapM (fun (it : Nat × String) => decArrivals it.1 it.2) with
+        | some chans =>
+          let m := chans.map (fun arr => if Auto.srEnabled cfg
+            then encOuts ((Auto.run cfg.frequency Auto.Last.empty (arr.map .arrival)).flatten) else "-|-")
+          let sp := chans.map (fun arr => if Auto.srEnabled cfg
+            then encOuts ((Spec.Auto.specRun cfg.frequency [] arr).flatten) else "-|-")
+          ";".intercalate m ++ "\t" ++ ";".intercalate sp
+        | none => "bad-op"
+      | none => "bad-op")
   | ["lifecheck", kind, script] =>
     (ds, if kind == "tcps" || kind == "udps" then
         match (script.splitOn ",").mapM decPeer with
